@@ -430,11 +430,15 @@ def solve(text, timeout, order=("z3-new", "z3", "cvc5"), alts=(), stagger=1.5):
     if named:
         plan.append((0.0, first + "/" + named[0][0], named[0][1]))
     if first == "z3-new" and len(order) > 1:
-        plan.append((stagger, "z3-new-r0", path))
+        # relevancy-off is the decisive configuration on large heap/frame queries: start it at once on big queries
+        big = len(text) > 60000
+        plan.append((0.0 if big else stagger, "z3-new-r0", path))
         if named:
-            plan.append((stagger, "z3-new-r0/" + named[0][0], named[0][1]))
+            plan.append((0.0 if big else stagger, "z3-new-r0/" + named[0][0], named[0][1]))
     for aname, ap in named[1:]:
         plan.append((stagger, first + "/" + aname, ap))
+        if stagger == 0.0 and first == "z3-new":
+            plan.append((0.0, "z3-new-r0/" + aname, ap))
     for n in order[1:]:
         plan.append((4 * stagger, n, path))
     if named and len(order) > 1:
